@@ -404,6 +404,8 @@ class SymSeq:
             from .interp import Untranslatable
 
             raise Untranslatable("slice of a symbolic sequence")
+        if getattr(self, "as_range", None) is not None:
+            return self.as_range[i]
         if isinstance(i, int) and i < 0:
             return self._at(self.length + i)
         return self._at(lift(i))
@@ -568,3 +570,101 @@ class SArr:
 
     def sym_len(self):
         return SV(self.n)
+
+
+# --------------------------------------------------------------------------------------
+IntSeq = z3.SeqSort(I)
+
+
+class SymTuple:
+    """A Python tuple of ints of unknown length (a shape of unknown rank): z3 Seq(Int).
+    Slicing / indexing follow Python (negative indices wrap, slice bounds clamp)."""
+
+    def __init__(self, s):
+        self.s = s
+
+    @staticmethod
+    def of(v):
+        if isinstance(v, SymTuple):
+            return v
+        if isinstance(v, (tuple, list)):
+            if not v:
+                return SymTuple(z3.Empty(IntSeq))
+            parts = [z3.Unit(lift(x)) for x in v]
+            return SymTuple(z3.Concat(*parts) if len(parts) > 1 else parts[0])
+        raise TypeError(type(v))
+
+    def sym_len(self):
+        return SV(z3.Length(self.s))
+
+    def _bound(self, b, default):
+        if b is None:
+            return default
+        n = z3.Length(self.s)
+        e = lift(b)
+        e = z3.If(e < 0, e + n, e)
+        return z3.If(e < 0, z3.IntVal(0), z3.If(e > n, n, e))
+
+    def __getitem__(self, i):
+        n = z3.Length(self.s)
+        if isinstance(i, slice):
+            if i.step not in (None, 1):
+                from .interp import Untranslatable
+
+                raise Untranslatable("extended slice of a symbolic tuple")
+            lo_, hi_ = self._bound(i.start, z3.IntVal(0)), self._bound(i.stop, n)
+            return SymTuple(z3.SubSeq(self.s, lo_, z3.If(hi_ > lo_, hi_ - lo_, z3.IntVal(0))))
+        e = lift(i)
+        it = cur()
+        ok = z3.And(e >= -n, e < n)
+        if it is not None and not it.truth(SV(ok)):
+            from .interp import PyRaise
+
+            raise PyRaise("IndexError", "tuple index out of range")
+        return SV(self.s[z3.If(e < 0, e + n, e)])
+
+    def __add__(self, o):
+        return SymTuple(z3.Concat(self.s, SymTuple.of(o).s))
+
+    def __radd__(self, o):
+        return SymTuple(z3.Concat(SymTuple.of(o).s, self.s))
+
+    def __eq__(self, o):
+        if o is None:
+            return False
+        return SV(self.s == SymTuple.of(o).s)
+
+    def __ne__(self, o):
+        if o is None:
+            return True
+        return SV(self.s != SymTuple.of(o).s)
+
+    def __hash__(self):
+        return hash(self.s)
+
+    def __iter__(self):
+        from .interp import Untranslatable
+
+        raise Untranslatable("iteration over a tuple of symbolic length")
+
+    def __repr__(self):
+        return f"SymTuple({self.s})"
+
+
+class SymRange:
+    """range(n) with symbolic n: only indexing (negative indices wrap, IndexError out of range) and len"""
+
+    def __init__(self, n):
+        self.n = lift(n)
+
+    def sym_len(self):
+        return SV(self.n)
+
+    def __getitem__(self, i):
+        e = lift(i)
+        it = cur()
+        if not it.truth(SV(z3.And(e >= -self.n, e < self.n))):
+            from .interp import PyRaise
+
+            raise PyRaise("IndexError", "range object index out of range")
+        return SV(z3.If(e < 0, e + self.n, e))
